@@ -251,7 +251,7 @@ static void ProcessFile(char const* FileName, LongWord Offset) {
                 MaxAdr = 0xfffffffful;
                 break;
             case eHexFormatIntel16:
-                MaxAdr = 0xffff0ul + 0xffffu;
+                MaxAdr = 0xffffful;
                 break;
             case eHexFormatAtmel:
                 MaxAdr = (1 << (AVRLen << 3)) - 1;
